@@ -363,6 +363,10 @@ def malformed(ctx, P, count):
                 doc, scores = doc[0], scores          # one sentence, many score results
             else:
                 doc, scores = doc, scores[0]          # many sentences, one score result
+        if what in ('tag_rows', 'dep_shape', 'tag_columns', 'tokens_vs_rows') and rng.random() < 0.3:
+            # the single-sentence calling convention (a list of tokens and ONE scoring result) is validated like a batch of one
+            doc, scores = doc[j], scores[j]
+            what = 'flat_' + what
         lim = rng.choice([100, 100, 2, 3])
         calls_reset()
         err = None
@@ -394,6 +398,51 @@ def malformed(ctx, P, count):
             ctx.fail('result_count', f'single-sentence form: {len(r)} result lists', {'what': 'single form'})
     except Exception as e:      # noqa
         ctx.fail('exception', f'single-sentence form raised {type(e).__name__}: {e}', {'what': 'single form'})
+
+
+# ---------------------------------------------------------------------------------------------------------
+def big_cache(ctx, P, n_sent):
+    """a batch over the whole shipped English inventory (425 tags, wide beam): the rule cache and the category table of ONE call grow to
+    tens of thousands of entries; every sentence must still come back exactly as when it is parsed alone"""
+    rng = ctx.rng
+    cats = [Category.parse(s_) for s_ in gen.inventory('en')]
+    roots = [Category.parse(r_) for r_ in ('S[dcl]', 'S[wq]', 'S[q]', 'NP')]
+    binary, unary = Rule('en', 2), Rule('en', 1)
+    kw = dict(unary_penalty=0.125, beta=1e-5, use_beta=False, pruning_size=rng.choice([15, 17]), nbest=1, max_chunk_size=100)
+    templates = [['NP', '(S[dcl]\\NP)/NP', 'NP'], ['NP[nb]/N', 'N', 'S[dcl]\\NP'], ['NP', '(S[dcl]\\NP)/NP', 'NP[nb]/N', 'N'], ['NP[nb]/N', 'N/N', 'N', 'S[dcl]\\NP'],
+                 ['NP', 'S[dcl]\\NP', '(S\\NP)\\(S\\NP)'], ['N', '(S[dcl]\\NP)/PP', 'PP/NP', 'NP']]
+    idx = {str(c): i for i, c in enumerate(cats)}
+    templates = [t for t in templates if all(x in idx for x in t)] or [[str(cats[0])]]
+    sents = []
+    for i in range(n_sent):
+        tpl = rng.choice(templates)
+        s_ = make_sentence(rng, f'big.{i}', len(cats), len(tpl))
+        for j, t in enumerate(tpl):          # a parse exists inside the beam; the rest of the beam is random
+            s_.tag[j, idx[t]] = 0.125
+        sents.append(s_)
+    base = {'scenario': 'big_cache', 'sentences': n_sent, 'kw': {k: repr(v) for k, v in kw.items()}, 'lengths': [len(s_.tokens) for s_ in sents]}
+    calls_reset()
+    try:
+        whole, _ = call_run(P, sents, cats, roots, binary, unary, kw)
+    except Exception as e:      # noqa
+        ctx.fail('exception', f'big-cache batch: depccg.parsing.run raised {type(e).__name__}: {str(e)[:200]} on a well-formed batch of {n_sent} sentences '
+                 f'after {calls()} rule-function calls (= cache entries) in this call', dict(base, error=repr(e)[:300]))
+        return
+    ctx.stats['big_cache:rule_cache_entries'] = calls()
+    if len(whole) != n_sent:
+        ctx.fail('result_count', f'big-cache batch: {n_sent} sentences in, {len(whole)} result lists out', base)
+        return
+    for i, s_ in enumerate(sents):
+        try:
+            alone, _ = call_run(P, [s_], cats, roots, binary, unary, kw)
+        except Exception as e:      # noqa
+            ctx.fail('exception', f'big-cache: sentence {i} alone raised {type(e).__name__}: {str(e)[:200]}', dict(base, index=i))
+            continue
+        ctx.case(('big', i, n_sent), nontrivial=True)
+        ctx.count('big_cache:' + ('failed' if is_failure(alone[0]) else 'parsed'))
+        if result_sig(alone[0]) != result_sig(whole[i]):
+            ctx.fail('history_dependent', f'big-cache batch: sentence {i} differs from parsing it alone (the call had made {ctx.stats["big_cache:rule_cache_entries"]} rule-function calls)',
+                     dict(base, index=i, alone=[(x[0], x[2]) for x in result_sig(alone[0])], batch=[(x[0], x[2]) for x in result_sig(whole[i])]))
 
 
 # ---------------------------------------------------------------------------------------------------------
@@ -631,6 +680,9 @@ def run(ctx):
         memo_checks(ctx, P, 24 if ctx.quick else 240)
         wrapper_checks(ctx, P, 240 if ctx.quick else 2400)
         malformed(ctx, P, 40 if ctx.quick else 400)
+        t0 = time.time()
+        big_cache(ctx, P, 7 if ctx.quick else 40)
+        ctx.stats['big_cache_s'] = round(time.time() - t0, 1)
         rng = ctx.rng
         if ctx.quick:
             plan = [('syn', 45, 'normal'), ('ja', 30, 'normal'), ('en', 8, 'normal'), ('syn', 24, 'dead'), ('ja', 20, 'maxlen'), ('syn', 20, 'maxstep'),
